@@ -160,47 +160,102 @@ class Body:
     # ---- path sensitivity for inlined helper results (see lib/inline.py): the variant an inlined call returned on this path is
     # remembered and the caller's test of that result is followed only along the matching edge
     def _ps(self):
+        """(tracked locals, index of each, switch block -> tracked local it tests, per-block effects). Tracked: the result locals of
+        the inlined calls / written-out combinators and every local whose value is moved into one of them."""
         if getattr(self, "_ps_cache", None) is None:
             metas = self.fn.get("inlined") or []
-            tests = {}
             self._ps_building = True
-            for i, m in enumerate(metas):
-                if m.get("dest_local") is None:
-                    continue
-                for sb in self.switch_blocks():
-                    e = self.cond(sb)
-                    if e[0] == "discr" and e[1]["l"] == m["dest_local"] and not e[1]["p"]:
-                        tests[sb] = i
+            tracked = {m["dest_local"] for m in metas if m.get("dest_local") is not None}
+            changed = True
+            while changed:
+                changed = False
+                for blk in self.blocks:
+                    for s in blk["stmts"]:
+                        if s["k"] == "assign" and not s["lhs"]["p"] and s["rv"]["k"] == "use":
+                            o = s["rv"]["o"]
+                            if o["k"] in ("copy", "move") and not o["p"]["p"]:
+                                a_, b_ = s["lhs"]["l"], o["p"]["l"]
+                                if (a_ in tracked) != (b_ in tracked):   # whole-value moves carry the variant both ways
+                                    tracked.update((a_, b_))
+                                    changed = True
+            order = sorted(tracked)
+            idx = {l: i for i, l in enumerate(order)}
+            tests = {}
+            for sb in self.switch_blocks():
+                e = self.cond(sb)
+                if e[0] == "discr" and not e[1]["p"] and e[1]["l"] in idx:
+                    tests[sb] = idx[e[1]["l"]]
+            # effects of entering a block: ordered (target index, ('copy', source index) | ('set', variant) | ('clear',))
+            effects = {}
+            for bi, blk in enumerate(self.blocks):
+                ef = []
+                for s in blk["stmts"]:
+                    if s["k"] != "assign" or s["lhs"]["l"] not in idx:
+                        continue
+                    x = idx[s["lhs"]["l"]]
+                    rv = s["rv"]
+                    if s["lhs"]["p"]:
+                        ef.append((x, ("clear",)))
+                    elif rv["k"] == "use" and rv["o"]["k"] in ("copy", "move") and not rv["o"]["p"]["p"] and rv["o"]["p"]["l"] in idx:
+                        ef.append((x, ("copy", idx[rv["o"]["p"]["l"]])))
+                    elif rv["k"] == "agg" and rv.get("variant") in STD_VARIANTS:
+                        ef.append((x, ("set", STD_VARIANTS[rv["variant"]])))
+                    else:
+                        ef.append((x, ("clear",)))
+                for m in metas:
+                    d = m.get("dest_local")
+                    if d is None:
+                        continue
+                    if bi == m["entry"] and not m.get("combinator"):
+                        ef.insert(0, (idx[d], ("clear",)))
+                    v = m["sites"].get(bi)
+                    if v is not None:
+                        # an exit site of an inlined helper: the variant is that of the helper's return slot (moved to the call's
+                        # destination when the helper returns)
+                        rl = m.get("ret_local")
+                        ef.append((idx[rl] if rl in idx else idx[d], ("set", v)))
+                t = blk["term"]
+                tail = []
+                if t["k"] == "call" and not t["dest"]["p"] and t["dest"]["l"] in idx:
+                    tail.append(idx[t["dest"]["l"]])
+                if ef or tail:
+                    effects[bi] = (ef, tail)
             self._ps_building = False
-            self._ps_cache = (metas, tests)
+            self._ps_cache = (order, tests, effects)
         return self._ps_cache
 
     def _ps_step(self, b, tg, lab, tags):
         """new tag tuple after moving b -> tg, or None if the edge contradicts what is known"""
-        metas, tests = self._ps()
-        if b in tests:
-            i = tests[b]
-            known = tags[i]
-            if known is not None:
-                term = self.blocks[b]["term"]
-                listed = {v for v, _ in term["targets"]}
-                if lab == "otherwise":
-                    if known in listed:
-                        return None
-                elif lab != known:
-                    return None
+        order, tests, effects = self._ps()
         new = list(tags)
-        for i, m in enumerate(metas):
-            if tg == m["entry"]:
-                new[i] = None
-            v = m["sites"].get(tg)
-            if v is not None:
-                new[i] = v
+        if b is not None:
+            # the call that ends b defines its destination on the way out
+            for x in effects.get(b, ((), ()))[1]:
+                new[x] = None
+            if b in tests:
+                known = new[tests[b]]
+                if known is not None:
+                    term = self.blocks[b]["term"]
+                    listed = {v for v, _ in term["targets"]}
+                    if lab == "otherwise":
+                        if known in listed:
+                            return None
+                    elif lab != known:
+                        return None
+                elif lab != "otherwise" and isinstance(lab, int):
+                    new[tests[b]] = lab          # the edge taken tells the variant
+        for x, op in effects.get(tg, ((), ()))[0]:
+            if op[0] == "copy":
+                new[x] = new[op[1]]
+            elif op[0] == "set":
+                new[x] = op[1]
+            else:
+                new[x] = None
         return tuple(new)
 
     def _ps_search(self, starts, goal, cut_edges, cut_blocks):
-        metas, _ = self._ps()
-        init = tuple(None for _ in metas)
+        order, _, _ = self._ps()
+        init = tuple(None for _ in order)
         prev = {}
         dq = deque()
         for s in starts:
